@@ -199,6 +199,11 @@ func c09Configure(s *res.Service, cfg c09Cfg) {
 		s.Handle("a.$id", opts...)
 		s.Handle(">", opts...)
 	}
+	if len(cfg.Kinds)%2 == 1 {
+		// a handler value put together by hand whose method maps are allocated but empty: it
+		// registers no call or auth method, so it adds nothing to what the service answers
+		s.AddHandler("zzempty.$id", res.Handler{Call: map[string]res.CallHandler{}, Auth: map[string]res.AuthHandler{}})
+	}
 	c09Own(s, cfg)
 }
 
